@@ -85,6 +85,9 @@ type world struct {
 	// reference-model inputs
 	inval    [nFam]map[uint64][]time.Time // invalidation instants per family/key
 	invalAll []time.Time                  // indices changes invalidate everything
+	// emptySince: instant of the indices-change notice that left NO active validator (zero while the
+	// active set is non-empty)
+	emptySince time.Time
 
 	// oracle bookkeeping
 	seen        map[string]int
